@@ -2,10 +2,11 @@
 # Runs every claimed check at the given tier (default quick) and prints one line per property.
 tier=${1:-quick}
 rc=0
-for f in /verif/checks/C*.json; do
+here=$(cd "$(dirname "$0")" && pwd)
+for f in $here/checks/C*.json; do
   pid=$(basename "$f" .json)
   t0=$(date +%s)
-  out=$(python3 /verif/check.py "$pid" --tier "$tier" 2>&1); r=$?
+  out=$(python3 $here/check.py "$pid" --tier "$tier" 2>&1); r=$?
   t1=$(date +%s)
   echo "$pid rc=$r $((t1-t0))s $(echo "$out" | grep '^SUMMARY' | sed 's/SUMMARY property=[A-Z0-9]* //')"
   echo "$out" | grep -E '^(VIOLATION|INCONCLUSIVE|UNCONFIRMED)' | cut -c1-220
